@@ -12,7 +12,7 @@
    The outgoing half (every answered outgoing request has left both tables) is C16_outgoing over
    Model/Outgoing.v (Proofs/OutgoingProofs.v). *)
 From Coq Require Import ZArith NArith List Bool Lia Arith.
-From Pygls Require Import Base.Assoc Base.AssocFacts Model.Endpoint Spec.EndpointSpec Proofs.EndpointInv Proofs.EndpointFuts.
+From Pygls Require Import Base.Assoc Base.AssocFacts Model.Endpoint Model.EndpointX Spec.EndpointSpec Proofs.EndpointInv Proofs.EndpointFuts Proofs.EndpointXProofs.
 Import ListNotations.
 
 (* ------------------------------------------------------------------ in-flight request futures *)
@@ -34,10 +34,10 @@ Definition inflight (s : st) : nat := length (inflight_ids s).
 Definition is_incoming (r : fref) : bool := match r with FOut _ => false | _ => true end.
 Definition incoming_entries (s : st) : list (id * fref) := filter (fun p => is_incoming (snd p)) (futs s).
 
-Theorem futs_subset_inflight : forall c evs k r, In (k, r) (futs (run c evs)) ->
-  is_incoming r = true -> In k (inflight_ids (run c evs)).
+Lemma futs_subset_inflight_st : forall s k r, FW s -> In (k, r) (futs s) ->
+  is_incoming r = true -> In k (inflight_ids s).
 Proof.
-  intros c evs k r HI INC. destruct (fw_run c evs) as (_ & H). specialize (H k r HI).
+  intros s k r F HI INC. destruct F as (_ & H). specialize (H k r HI).
   unfold inflight_ids. apply in_or_app. destruct r as [t|j|o]; cbn [ref_ok] in H; [| |discriminate].
   - left. destruct H as (tk & N & C & F). apply in_flat_map. exists tk. split; [eapply nth_error_In; exact N|].
     unfold task_inflight_id. rewrite C. destruct (t_st tk) eqn:T; [left; reflexivity|left; reflexivity|].
@@ -54,39 +54,50 @@ Proof.
   destruct H as [[k' r'] [E H]]. cbn in E. subst k'. apply filter_In in H. apply in_map_iff. exists (k, r'). split; [reflexivity|apply H].
 Qed.
 
+Theorem futs_subset_inflight : forall c evs k r, In (k, r) (futs (run c evs)) ->
+  is_incoming r = true -> In k (inflight_ids (run c evs)).
+Proof. intros c evs k r. apply futs_subset_inflight_st. apply fw_run. Qed.
+
 (* the table never holds more incoming entries than there are request futures in flight *)
-Theorem table_bounded : forall c evs, length (incoming_entries (run c evs)) <= inflight (run c evs).
+Lemma table_bounded_st : forall s, FW s -> length (incoming_entries s) <= inflight s.
 Proof.
-  intros c evs. unfold inflight.
-  replace (length (incoming_entries (run c evs))) with (length (keys (incoming_entries (run c evs))))
+  intros s F. unfold inflight.
+  replace (length (incoming_entries s)) with (length (keys (incoming_entries s)))
     by (unfold keys; apply map_length).
   apply NoDup_incl_length.
-  - apply nodup_filter_keys. apply (fw_run c evs).
+  - apply nodup_filter_keys. apply F.
   - intros k HI. unfold keys, incoming_entries in HI. apply in_map_iff in HI. destruct HI as [[k' r] [E HI]]. cbn in E. subst k'.
-    apply filter_In in HI. destruct HI as [HI INC]. eapply futs_subset_inflight; [exact HI|exact INC].
+    apply filter_In in HI. destruct HI as [HI INC]. eapply futs_subset_inflight_st; [exact F|exact HI|exact INC].
 Qed.
 
-Theorem tables_empty_at_quiescence : forall c evs, quiescent (run c evs) = true ->
-  incoming_entries (run c evs) = [] /\ inflight (run c evs) = 0.
+Theorem table_bounded : forall c evs, length (incoming_entries (run c evs)) <= inflight (run c evs).
+Proof. intros. apply table_bounded_st, fw_run. Qed.
+
+Lemma tables_empty_st : forall s0, FW s0 -> quiescent s0 = true ->
+  incoming_entries s0 = [] /\ inflight s0 = 0.
 Proof.
-  intros c evs Q. split.
-  - destruct (incoming_entries (run c evs)) as [|[k r] l] eqn:E; [reflexivity|]. exfalso.
-    assert (HI : In (k, r) (incoming_entries (run c evs))) by (rewrite E; left; reflexivity).
+  intros s0 F0 Q. split.
+  - destruct (incoming_entries s0) as [|[k r] l] eqn:E; [reflexivity|]. exfalso.
+    assert (HI : In (k, r) (incoming_entries s0)) by (rewrite E; left; reflexivity).
     unfold incoming_entries in HI. apply filter_In in HI. destruct HI as [HI INC].
-    destruct (fw_quiescent _ (fw_run c evs) Q k r HI) as [o EO]. subst r. discriminate.
+    destruct (fw_quiescent _ F0 Q k r HI) as [o EO]. subst r. discriminate.
   - unfold quiescent in Q. apply andb_true_iff in Q. destruct Q as [Q _].
     apply andb_true_iff in Q. destruct Q as [Q _]. apply andb_true_iff in Q. destruct Q as [Q1 Q2].
     unfold inflight, inflight_ids. rewrite app_length.
-    assert (A : flat_map task_inflight_id (tasks (run c evs)) = []).
-    { induction (tasks (run c evs)) as [|tk l IH]; [reflexivity|]. cbn [forallb] in Q1. apply andb_true_iff in Q1.
+    assert (A : flat_map task_inflight_id (tasks s0) = []).
+    { induction (tasks s0) as [|tk l IH]; [reflexivity|]. cbn [forallb] in Q1. apply andb_true_iff in Q1.
       destruct Q1 as [I1 I2]. cbn [flat_map]. rewrite (IH I2), app_nil_r. unfold task_idle in I1. unfold task_inflight_id.
       destruct (t_st tk); try discriminate. destruct (t_cb tk); reflexivity. }
-    assert (B : flat_map job_inflight_id (jobs (run c evs)) = []).
-    { induction (jobs (run c evs)) as [|jb l IH]; [reflexivity|]. cbn [forallb] in Q2. apply andb_true_iff in Q2.
+    assert (B : flat_map job_inflight_id (jobs s0) = []).
+    { induction (jobs s0) as [|jb l IH]; [reflexivity|]. cbn [forallb] in Q2. apply andb_true_iff in Q2.
       destruct Q2 as [I1 I2]. cbn [flat_map]. rewrite (IH I2), app_nil_r. unfold job_idle in I1. unfold job_inflight_id.
       destruct (j_st jb); try discriminate; destruct (j_cb jb); reflexivity. }
     rewrite A, B. reflexivity.
 Qed.
+
+Theorem tables_empty_at_quiescence : forall c evs, quiescent (run c evs) = true ->
+  incoming_entries (run c evs) = [] /\ inflight (run c evs) = 0.
+Proof. intros c evs. apply tables_empty_st, fw_run. Qed.
 
 (* ------------------------------------------------------------------ the outgoing entries only come from sends *)
 (* s' has no result-type key and no FOut entry that s does not have *)
@@ -357,4 +368,53 @@ Proof.
   assert (L : forall (l : list (id * fref)), length l = length (filter (fun p => is_incoming (snd p)) l) + length (filter (fun p => negb (is_incoming (snd p))) l)).
   { induction l as [|x l IH]; [reflexivity|]. cbn [filter]. destruct (is_incoming (snd x)); cbn [negb length]; lia. }
   rewrite (L (futs (run c evs))). lia.
+Qed.
+
+(* ================================================================== the same with the events of EndpointX *)
+Definition sentx (e : evx) : list id := match e with Base e => sent e | _ => [] end.
+Definition sent_idsx (evs : list evx) : list id := flat_map sentx evs.
+
+Lemma osub_stepx : forall c s e,
+  incl (keys (rtypes (stepx c s e))) (keys (rtypes s) ++ sentx e) /\
+  (forall k o, In (k, FOut o) (futs (stepx c s e)) -> In (k, FOut o) (futs s) \/ In k (sentx e)).
+Proof.
+  intros c s e. destruct e as [e|i|o]; cbn [stepx sentx]; [apply osub_step| |];
+  (assert (Z : forall s', osub s s' -> incl (keys (rtypes s')) (keys (rtypes s) ++ []) /\
+            (forall k o, In (k, FOut o) (futs s') -> In (k, FOut o) (futs s) \/ In k []));
+   [intros s' (A & B); split; [intros k H; apply in_or_app; left; apply A; exact H|intros k o0 H; left; apply B; exact H]|]);
+  destruct (exit s); try (apply Z, osub_refl).
+  - apply Z. unfold server_cancel. destruct (Assoc.get id_eqb i (futs s)); [apply osub_cancel_ref|apply osub_refl].
+  - apply Z. unfold out_cancel. destruct (nth_error (outg s) o) as [[| |]|]; try apply osub_refl. apply osub_same; reflexivity.
+Qed.
+
+Theorem outgoing_only_from_sends_x : forall c evs,
+  incl (keys (rtypes (runx c evs))) (sent_idsx evs) /\
+  (forall k o, In (k, FOut o) (futs (runx c evs)) -> In k (sent_idsx evs)).
+Proof.
+  intros c evs. unfold runx.
+  assert (G : forall evs s,
+     incl (keys (rtypes (fold_left (stepx c) evs s))) (keys (rtypes s) ++ sent_idsx evs) /\
+     (forall k o, In (k, FOut o) (futs (fold_left (stepx c) evs s)) -> In (k, FOut o) (futs s) \/ In k (sent_idsx evs))).
+  { induction evs0 as [|e r IH]; intro s; cbn [fold_left sent_idsx flat_map].
+    - split; [rewrite app_nil_r; apply incl_refl|auto].
+    - destruct (IH (stepx c s e)) as [A B]. destruct (osub_stepx c s e) as [C D]. split.
+      + intros k H. apply A in H. apply in_app_or in H. destruct H as [H|H].
+        * apply C in H. apply in_app_or in H. apply in_or_app. destruct H; [left; assumption|right; apply in_or_app; left; assumption].
+        * apply in_or_app. right. apply in_or_app. right. exact H.
+      + intros k o H. destruct (B k o H) as [H1|H1].
+        * destruct (D k o H1) as [H2|H2]; [left; exact H2|right; apply in_or_app; left; exact H2].
+        * right. apply in_or_app. right. exact H1. }
+  destruct (G evs init) as [A B]. split.
+  - intros k H. apply A in H. exact H.
+  - intros k o H. destruct (B k o H) as [[]|H1]. exact H1.
+Qed.
+
+Theorem incoming_quiescent_empty_x : forall c evs, sent_idsx evs = [] -> quiescent (runx c evs) = true ->
+  futs (runx c evs) = [] /\ rtypes (runx c evs) = [].
+Proof.
+  intros c evs NS Q. destruct (outgoing_only_from_sends_x c evs) as [A B]. rewrite NS in A, B. split.
+  - destruct (futs (runx c evs)) as [|[k r] l] eqn:E; [reflexivity|]. exfalso.
+    assert (HI : In (k, r) (futs (runx c evs))) by (rewrite E; left; reflexivity).
+    destruct (fw_quiescent _ (fw_runx c evs) Q k r HI) as [o EO]. subst r. apply (B k o). rewrite <- E. exact HI.
+  - destruct (rtypes (runx c evs)) as [|[k u] l] eqn:E; [reflexivity|]. exfalso. apply (A k). left. reflexivity.
 Qed.
